@@ -117,6 +117,37 @@ class World(ControlWorld):
                 self.violate("C16.member_help", f"'{cmd} {flag}' (width {width}) does not show the first docstring line {doc!r}: {txt[:200]!r}")
                 continue
             self.sit["C16.member_help_ok"] += 1
+        # "available as a command": the read-only members and the static methods are also executed (they cannot disturb
+        # anything), the reply must be what the direct access gives
+        import inspect as _inspect
+        import random as _random
+
+        from .control import gen_command
+
+        rng = _random.Random(f"{self.case.get('cls')}:{width}")
+        for n, member in members:
+            cmd = n.replace("_", "-")
+            static = isinstance(_inspect.getattr_static(cls, n), staticmethod)
+            if isinstance(member, property):
+                line, want = cmd, str(getattr(pool, n))
+            elif static:
+                c = gen_command(cls, rng, only=[n])
+                line = c.line
+                try:
+                    r = getattr(pool, n)(*c.pos, **c.kw)
+                    if _inspect.isawaitable(r):
+                        r = await r
+                    want = "ok" if r is None else str(r)
+                except Exception as e:  # noqa: BLE001
+                    want = str(e)
+            else:
+                continue
+            got = await self.send(s, line)
+            txt = b"".join(got).decode()
+            if len(got) != 1 or txt != want + "\n":
+                self.violate("C16.member_runs", f"{'static method' if static else 'property'} command {line!r} answered {txt[:120]!r}, the member itself gives {want!r}")
+            else:
+                self.sit["C16.member_runs_ok" + (".static" if static else "")] += 1
         # non-public members are not commands
         priv = [n for n, _ in __import__("inspect").getmembers(cls) if n.startswith("_") and not n.startswith("__")][:6] + ["__init__", "__str__"]
         for n in priv:
